@@ -10,7 +10,6 @@ written from the tag docstrings) + ``str()`` for non-string values.
 """
 import functools
 import html
-import json
 import os
 import sys
 import traceback
@@ -49,6 +48,7 @@ MECH_TRY = 'try-else-finally-plus-concat'
 MECH_LATIN1 = 'html-quote-full-path-latin1'
 MECH_APOS = 'html-quote-fast-path-apostrophe'
 MECH_CLASS = 'ustr-class-unbound-str'
+MECH_FILE = 'file-template-no-encoding-latin1'
 
 
 def plan(tier, seed):
@@ -247,11 +247,12 @@ def show(o):
 class Prep:
     """One compiled template (main + sub-templates) for (syntax, form, encoding, ast)."""
 
-    def __init__(self, syntax, form, enc, ast):
+    def __init__(self, syntax, form, enc, ast, filedir=None):
         self.syntax, self.form, self.enc, self.ast = syntax, form, enc, ast
+        self.file = filedir is not None
         _fmt, self.quoted, self.route = U.form_info(form)
         self.src, self.seqs, self.subs = U.print_template(ast, syntax, form)
-        self.main, self.subt = U.make_templates(self.src, self.subs, syntax, enc)
+        self.main, self.subt = U.make_templates(self.src, self.subs, syntax, enc, filedir)
         self.kinds = U.node_kinds(ast)
 
     def render(self, value):
@@ -264,7 +265,7 @@ class Prep:
 
     def case(self, s, part):
         return {'kind': 'diff', 'part': part, 'syntax': self.syntax, 'form': self.form, 'enc': self.enc,
-                'ast': self.ast, 'text': s, 'src': self.src, 'subs': self.subs}
+                'ast': self.ast, 'text': s, 'src': self.src, 'subs': self.subs, 'file': self.file}
 
 
 def classify_diff(prep, s, b, T, B, strict, lenient):
@@ -287,6 +288,11 @@ def classify_diff(prep, s, b, T, B, strict, lenient):
             return MECH_TRY
     if B[0] == 'raise' or not isinstance(B[1], str):
         return None
+    if prep.file and T[1] in (strict, lenient):
+        # file-based template classes never get an encoding: is "everything decoded as Latin-1" what we see?
+        mojibake = b.decode('latin-1')
+        if mojibake != s and B[1] == ''.join(U.model_pieces(prep.ast, mojibake, prep.quoted, U.esc_strict)):
+            return MECH_FILE
     if prep.quoted and prep.route in ('full', 'fmt') and T[1] == strict:
         mojibake = b.decode('latin-1')
         if mojibake != s and B[1] == ''.join(U.model_pieces(prep.ast, mojibake, True, U.esc_strict)):
@@ -304,7 +310,7 @@ def diff_case(ctx, mon, prep, s, part, sample=False):
     strict = ''.join(pieces)
     lenient = ''.join(U.model_pieces(prep.ast, s, prep.quoted, U.esc_lenient)) if prep.quoted else strict
     multi = len(pieces) >= 2
-    ctx.case((part, prep.syntax, prep.form, prep.enc, prep.src, sorted(prep.subs.items()),
+    ctx.case((part, prep.file, prep.syntax, prep.form, prep.enc, prep.src, sorted(prep.subs.items()),
               sorted((k, sorted(v.items(), key=str)) for k, v in prep.seqs.items()), s),
              multi and s != '')
     ctx.table('encoding x text class', '%s|%s' % (prep.enc, U.text_class(s)))
@@ -322,7 +328,7 @@ def diff_case(ctx, mon, prep, s, part, sample=False):
         if case is None:
             case = prep.case(s, part)
         ctx.violation(what, case, mech=mech,
-                      key='%s_%s_%s_%s_%s' % (tag, prep.syntax, prep.form.replace(' ', '-'), prep.enc,
+                      key='%s%s_%s_%s_%s_%s' % (tag, '_file' if prep.file else '', prep.syntax, prep.form.replace(' ', '-'), prep.enc,
                                               '+'.join(sorted(prep.kinds))[:60].replace(':', '.').replace('=', '')),
                       detail={'text_render': show(T), 'bytes_render': show(B), 'model': ascii(strict)[:200],
                               'source': prep.src, 'html_quote_bytes_without_encoding': hq_noenc})
@@ -524,7 +530,7 @@ def other_modifiers(ctx):
     for mod in OTHER_MODS:
         for enc in U.ENCODINGS:
             t = HTML('A<dtml-var x %s>B' % mod, **({} if enc is None else {'encoding': enc}))
-            for s in ('plain_text', 'caf\xe9_x', '€_1'):
+            for s in ('plain_text', 'caf\xe9_x', '\u20ac_1'):
                 if not U.encodable(s, enc):
                     continue
                 T = outcome(lambda: t(x=s))
@@ -556,10 +562,12 @@ def part_b_templates():
     return out
 
 
-def value_texts(enc):
+def value_texts(enc, tier):
     base = ['plain', 'caf\xe9 <b>', "it's"]
     if enc != 'latin-1':
-        base.append('€ \U0001F600 中')
+        base.append('\u20ac \U0001F600 \u4e2d')
+    if tier == 'thorough':
+        base += [t for t in U.sample_texts(enc) if t not in base and len(t) < 40]
     return base
 
 
@@ -597,7 +605,7 @@ def run(ctx, spec):
         chosen = []
         for k in range(nb):
             t = texts[(j // ctx.nshards + k * 5) % len(texts)] if k else \
-                ("caf\xe9 <\xfc>&'" if enc in ('latin-1', 'cp1252') else "\xe9€<\U0001F600>&'")
+                ("caf\xe9 <\xfc>&'" if enc in ('latin-1', 'cp1252') else "\xe9\u20ac<\U0001F600>&'")
             if t not in chosen:
                 chosen.append(t)
         for s in chosen:
@@ -624,13 +632,38 @@ def run(ctx, spec):
     # ---- D: non-string values
     n = 0
     for enc in (None, 'latin-1', 'utf-16'):
-        recipes = U.value_recipes(value_texts(enc))
+        recipes = U.value_recipes(value_texts(enc, tier))
         for site in VALUE_SITES:
             for recipe in recipes:
                 n += 1
                 if n % ctx.nshards != ctx.shard:
                     continue
                 value_case(ctx, mon, site, enc, recipe, sample=(n % 1511 == 7))
+
+    # ---- E: file-based template classes (created without any encoding: "UTF-8 by default")
+    import shutil
+    import tempfile
+    tmpdir = tempfile.mkdtemp(prefix='c19-files-')
+    try:
+        n = 0
+        body = [['lit', '['], ['ins'], ['lit', ']']]
+        shapes = {'top level': [['lit', 'A'], ['ins'], ['lit', 'B']],
+                  'in ints n=3': [['in', {'n': 3, 'items': False, 'batch': None}, body, None]],
+                  'in items n=3': [['in', {'n': 3, 'items': True, 'batch': None}, [['ins']], None]],
+                  'with mapping': [['lit', 'A'], ['with', 'mapping', body]],
+                  'try plain': [['try', 'plain', body, []], ['lit', 'B']]}
+        for sy, f in form_variants():
+            for label, ast in shapes.items():
+                n += 1
+                if n % ctx.nshards != ctx.shard:
+                    continue
+                prep = Prep(sy, f, None, ast, filedir=tmpdir)
+                for s in U.sample_texts(None):
+                    ctx.count('E:file-based template cases')
+                    diff_case(ctx, mon, prep, s, 'E')
+                ctx.table('file-based classes: syntax x context', '%s|%s' % (sy, label))
+    finally:
+        shutil.rmtree(tmpdir, ignore_errors=True)
 
     if ctx.shard == 0:
         other_modifiers(ctx)
@@ -644,7 +677,7 @@ def finish(agg):
     t = agg.get('tables', {})
     inc = []
     for k in ('diff:multi-piece evaluations', 'diff:multi-piece evaluations with non-ASCII bytes',
-              'value:evaluations', 'join_unicode:bytes present (decoding branch)', 'join_unicode:all text',
+              'value:evaluations', 'E:file-based template cases', 'join_unicode:bytes present (decoding branch)', 'join_unicode:all text',
               'render_blocks:single bytes piece returned as is', 'render_blocks:text result',
               'html_quote:bytes with encoding', 'html_quote:text'):
         if not c.get(k):
@@ -694,5 +727,14 @@ def replay(ctx, rep):
     if c.get('kind') == 'value':
         value_case(ctx, mon, VALUE_SITE[c['site']], c['enc'], c['value'])
         return
-    prep = Prep(c['syntax'], c['form'], c['enc'], c['ast'])
-    diff_case(ctx, mon, prep, c['text'], c.get('part', 'R'))
+    tmpdir = None
+    if c.get('file'):
+        import tempfile
+        tmpdir = tempfile.mkdtemp(prefix='c19-files-')
+    try:
+        prep = Prep(c['syntax'], c['form'], c['enc'], c['ast'], filedir=tmpdir)
+        diff_case(ctx, mon, prep, c['text'], c.get('part', 'R'))
+    finally:
+        if tmpdir:
+            import shutil
+            shutil.rmtree(tmpdir, ignore_errors=True)
